@@ -59,8 +59,10 @@ Definition only_on (B : list nat) (m : space) : space :=
 Definition tape_t : Type := list (option bool).
 Definition expander_t : Type := net -> sd -> tape_t -> sd * result * tape_t.
 
+(* attractor data computed while the node had no successors -- or, for a skip node, only its minimal
+   trap spaces (fix of defect D17) -- is discarded *)
 Definition discard_if_stub (d : sd) (i : nat) : sd :=
-  if n_exp (get d i) then d else upd_node d i clear_attr.
+  if n_exp (get d i) && negb (n_skip (get d i)) then d else upd_node d i clear_attr.
 
 (* first loop of attach_scc_subdiagram: copy the nodes of the sub-diagram (ids 1..) *)
 Fixpoint attach_nodes (N : net) (check_maa : bool) (B : list nat) (sub : sd) (attach_space : space)
